@@ -4,7 +4,8 @@ set -u
 repo=$1; pkg=$2; name=$3; shift 3
 d=$(mktemp -d /tmp/ovg.XXXX)
 J=$(python3 "$(dirname "$0")/mk_gocbcore_overlay.py" "$repo" "$pkg" "$d" "$@")
-cd "$repo" && GOFLAGS=-mod=mod GOPROXY=off GOSUMDB=off GOTOOLCHAIN=local go test -overlay "$J" -vet=off -timeout 120s -count=1 -run "^$name\$" "./$pkg/" > "$d/out.txt" 2>&1
+cp "$repo/go.mod" "$repo/go.sum" "$d/"  # the module files of the tree under check are never written
+cd "$repo" && GOFLAGS=-mod=mod GOPROXY=off GOSUMDB=off GOTOOLCHAIN=local go test -modfile="$d/go.mod" -overlay "$J" -vet=off -timeout 120s -count=1 -run "^$name\$" "./$pkg/" > "$d/out.txt" 2>&1
 rc=$?
 grep -E '^(--- FAIL|--- PASS|FAIL|ok  |panic:)' "$d/out.txt" | head -8
 grep -vE '^(--- FAIL|--- PASS|FAIL|ok  |panic:)' "$d/out.txt" | head -14
